@@ -13,6 +13,7 @@ EXPLANATION = (
     '(R1 also covers every other time-ordered list walk of the queue; R3 also requires a single buffer per kind and no push_front.) '
     '(R2 also: the zero-delay container is filled by add alone; R5, shared with C01.R2) every insertion and look-up derives the bucket from the timestamp by the same expression. '
     '(R6, shared with C08.R7) a send for the current instant is walked inline, only a later one becomes an event. '
+    '(R2 also: every construction of the calendar queue initialises the bound `add` compares with - the current instant - to the constant zero, whatever start time is configured.) '
     "Decides these necessary conditions only; not the end-to-end tie order of histories.")
 ASSUMPTIONS = ["VecDeque::push_back/pop_front are opposite ends; Vec::drain(..) yields in index order"]
 USES_B = True
@@ -286,6 +287,49 @@ def _is_time_of_var(c, f, var):
     return c[0] == 'field' and c[2] == 'time' and (c[1][0] in ('local', 'phi') or (c[1][0] == 'arg' and False))
 
 
+def _zero_duration(P, f, e, depth=0):
+    """is e the constant zero duration?  Duration::ZERO / Duration::default() / Duration::new(0, 0) / from_*(0), or a parameter for which
+    every caller passes one of those"""
+    e = peel(e)
+    if e[0] == 'constdef':
+        return str(e[1]).endswith('Duration::ZERO')
+    if e[0] == 'call':
+        n = str(e[1])
+        if n.endswith('Duration::default') or (n.endswith('Default::default') and not e[2]):
+            return True
+        if re.search(r'Duration::(new|from_secs|from_millis|from_micros|from_nanos)$', n):
+            return bool(e[2]) and all(peel(a) == ('int', 0) for a in e[2])
+        return False
+    if e[0] == 'arg' and depth < 3 and isinstance(e[1], int):
+        sites = [c for c in P.call_sites_of(f.key) if c.fn.key != f.key and not c.fn.key.startswith('des_cqueue::tests') and '::tests::' not in c.fn.key]
+        k = e[1] - 1
+        return bool(sites) and all(k < len(c.args) and _zero_duration(P, c.fn, c.fn.expr_operand(c.args[k], c.b, 'T'), depth + 1) for c in sites)
+    return False
+
+
+def _current_instant_starts_at_zero(ctx, P, fa, bound):
+    """(quantifier of the property: "before the first dispatch the 'current instant' is time zero") every construction of the queue
+    initialises the bound `add` compares with to the constant zero — not to a configured start time, which would send the events
+    pre-loaded for that instant to the zero-delay FIFO and let a zero-delay follow-up queue up behind them"""
+    bp = peel(bound)
+    if bp[0] != 'field':
+        return
+    name = bp[2]
+    n = 0
+    for f in P.fn_list:
+        if not f.key.startswith('des_cqueue::') or f.kind == 'promoted':
+            continue
+        for b in sorted(f.reachable()):
+            for i, st in enumerate(f.stmts(b)):
+                if st['k'] != 'assign' or st['r']['k'] != 'agg' or strip_generics(str(st['r'].get('adt', ''))) != Q or name not in st['r'].get('fields', []):
+                    continue
+                n += 1
+                v = f.expr_operand(st['r']['ops'][st['r']['fields'].index(name)], b, i)
+                ctx.check(_zero_duration(P, f, v), 'current-instant-starts-at-zero', "a new queue's current instant is time zero (a constant), whatever start time is configured",
+                          f.where(b), show(v)[:120])
+    ctx.floor('constructions of the calendar queue', n, 1)
+
+
 def r2_zero_container(ctx, cfg='A', rule='C03.R2'):
     ctx.set_rule(rule, cfg)
     P = ctx.progs[cfg]
@@ -358,6 +402,8 @@ def r2_zero_container(ctx, cfg='A', rule='C03.R2'):
                     bound = a[3] if a[2] == ('arg', 'time') else a[2]
     if not ctx.check(bound is not None, 'bound-role:%s' % cfg, 'add compares its time argument with a stored lower bound', fa.where()):
         return
+    if cfg == 'A':
+        _current_instant_starts_at_zero(ctx, P, fa, bound)
     bad = []
     for ranks in weak_orderings([('arg', 'time'), bound]):
         if ranks[('arg', 'time')] < ranks[bound]:
